@@ -14,6 +14,7 @@ func init() {
 	vpRegister("VPH_C15_stream", VPH_C15_stream)
 	vpRegister("VPH_C15_rawbytes", VPH_C15_rawbytes)
 	vpRegister("VPH_C15_write_lengths", VPH_C15_write_lengths)
+	vpRegister("VPH_C15_wellformed", VPH_C15_wellformed)
 }
 
 type vpConn struct {
@@ -27,6 +28,9 @@ type vpConn struct {
 	// hookAt (C16: something happens between two calls of one connection); reads never cross it
 	hookAt int
 	hook   func()
+	// seg, when positive, is the most a single Read returns (the client's bytes arrive in TCP
+	// segments of that size)
+	seg int
 }
 
 func (c *vpConn) Read(p []byte) (int, error) {
@@ -45,6 +49,9 @@ func (c *vpConn) Read(p []byte) (int, error) {
 	end := len(c.in)
 	if c.hook != nil && c.hookAt > c.pos && c.hookAt < end {
 		end = c.hookAt
+	}
+	if c.seg > 0 && end-c.pos > c.seg {
+		end = c.pos + c.seg
 	}
 	n := copy(p, c.in[c.pos:end])
 	c.pos += n
@@ -214,6 +221,10 @@ func VPH_C15_stream() {
 			vpAssert(h.xid == want[i], "reply-carries-the-calls-xid-in-arrival-order")
 		}
 	}
+	// ... nor stops serving others: nothing the connection did (a refused credential, an
+	// undecodable record) leaves the policy lock held, which would block the next policy update and
+	// with it every request on every connection
+	vpDrainLockFree(env, "after-the-connection")
 	if len(want) < len(calls) {
 		vpReach("undecodable-record")
 	}
@@ -291,4 +302,35 @@ func VPH_C15_write_lengths() {
 		vpReach("write-refused")
 	}
 	vpAssert(rd.done(), "write-reply-well-formed")
+}
+
+// VPH_C15_wellformed: one well-formed call of any NFSv3 procedure whose numeric arguments (offsets,
+// counts, cookies, sizes, times) take any value, on a record-marking connection through the real
+// connection loop: no panic, exactly one reply, carrying the call's xid, and the policy lock is
+// free afterwards. (What each reply must contain is C14's subject.)
+func VPH_C15_wellformed() {
+	fs := vpStdTree()
+	env := vpServer(fs, ExportOptions{})
+	hd, hx, hl := env.handleFor("/d"), env.handleFor("/d/x"), env.handleFor("/d/l")
+	env.srv.options.UseRecordMarking = true
+	proc := uint32(vpChoose("proc", 0, 21))
+	g := &vpGen{handles: []uint64{hd, hx, hl}, names: []string{"x", "new"}, maxData: 2}
+	xid := vpU32("xid")
+	var b vpBuf
+	b.u32(xid).u32(RPC_CALL).u32(2).u32(NFS_PROGRAM).u32(NFS_V3).u32(proc)
+	b.u32(AUTH_NONE).u32(0).u32(AUTH_NONE).u32(0).raw(g.args(proc))
+	conn := &vpConn{in: vpFrame(b.Bytes()), remote: "10.0.0.5:800"}
+	env.srv.handleConnectionWithRecordMarking(conn, env.h)
+	vpAssert(conn.closed >= 1, "connection-closed-at-end-of-stream")
+	replies, ok := vpSplitRecords(conn.out)
+	vpAssert(ok, "output-is-record-marked")
+	vpAssert(len(replies) == 1, "exactly-one-reply")
+	if len(replies) == 1 {
+		rd := &vpRd{b: replies[0]}
+		h := vpRPCReplyHeader(rd)
+		vpAssert(!rd.bad, "reply-header-well-formed")
+		vpAssert(h.xid == xid, "reply-carries-the-calls-xid")
+		vpReach("answered")
+	}
+	vpDrainLockFree(env, "after-the-connection")
 }
